@@ -54,8 +54,7 @@ def run_env(run):
                        % (1 if run.get("leaks") else 0))
         env.setdefault("UBSAN_OPTIONS", "print_stacktrace=1:halt_on_error=1")
     if run.get("variant") == "tsan":
-        env.setdefault("TSAN_OPTIONS", "halt_on_error=0:report_signal_unsafe=0:exitcode=0:"
-                       + run.get("tsan_options", ""))
+        env["TSAN_OPTIONS"] = "report_signal_unsafe=0:" + run.get("tsan_options", "exitcode=0")
     for k, v in run.get("env", {}).items():
         env[k] = v
     return env
